@@ -55,7 +55,7 @@ Proof. rewrite !Hm_app. cbn [Hm]. unfold cm. lia. Qed.
 
 (* a slot names usable resources of the node (of the initial list) whose id it carries *)
 Definition slot_on (ns0 : list node) (s : slot) : Prop :=
-  0 <= s_nidx s /\ exists n0, nth_error ns0 (Z.to_nat (s_nidx s)) = Some n0 /\
+  exists k n0, nth_error ns0 k = Some n0 /\ nd_index n0 = s_nidx s /\
   ro_fit (nd_cores n0) (s_cores s) /\ ro_fit (nd_gpus n0) (s_gpus s) /\
   Forall (fun p => 0 <= snd p) (s_cores s) /\ Forall (fun p => 0 <= snd p) (s_gpus s) /\
   0 <= s_lfs s /\ 0 <= s_mem s.
@@ -64,7 +64,7 @@ Lemma H_nonneg ns0 h : Forall (slot_on ns0) h ->
   (forall k j, 0 <= Hc h k j) /\ (forall k j, 0 <= Hg h k j) /\ (forall k, 0 <= Hl h k) /\ (forall k, 0 <= Hm h k).
 Proof.
   induction 1 as [|s h Hs HF IH]; cbn [Hc Hg Hl Hm]; [repeat split; intros; lia|].
-  destruct IH as [I1 [I2 [I3 I4]]]. destruct Hs as [_ [n0 [_ [_ [_ [P1 [P2 [P3 P4]]]]]]]].
+  destruct IH as [I1 [I2 [I3 I4]]]. destruct Hs as [k0 [n0 [_ [_ [_ [_ [P1 [P2 [P3 P4]]]]]]]]].
   repeat split; intros.
   - pose proof (I1 k j). pose proof (sum_at_nonneg _ j P1). destruct (s_nidx s =? k); lia.
   - pose proof (I2 k j). pose proof (sum_at_nonneg _ j P2). destruct (s_nidx s =? k); lia.
@@ -77,14 +77,48 @@ Qed.
 Definition NodeInv (h : list slot) (n0 n : node) : Prop :=
   NodeRel (Hc h (nd_index n0)) (Hg h (nd_index n0)) (Hl h (nd_index n0)) (Hm h (nd_index n0)) n0 n.
 
-(* node ids are the positions in the list (as the resource manager numbers them) *)
-Definition positional (ns0 : list node) : Prop :=
-  forall p n0, nth_error ns0 p = Some n0 -> nd_index n0 = Z.of_nat p.
+(* node ids (Node.index) are pairwise distinct; they need not be the list positions *)
+Definition distinct_ids (ns0 : list node) : Prop := NoDup (map nd_index ns0).
 
 Record Inv (ns0 ns : list node) (h : list slot) : Prop := mkInv {
-  inv_pos   : positional ns0;
+  inv_ids   : distinct_ids ns0;
   inv_nodes : Forall2 (NodeInv h) ns0 ns;
   inv_held  : Forall (slot_on ns0) h }.
+
+Lemma ids_differ ns p k x y :
+  distinct_ids ns -> nth_error ns p = Some x -> nth_error ns k = Some y -> nd_index x = nd_index y -> p = k.
+Proof.
+  intros Hnd Hp Hk He. unfold distinct_ids in Hnd. rewrite NoDup_nth_error in Hnd. apply Hnd.
+  - rewrite map_length. apply nth_error_Some. congruence.
+  - rewrite (map_nth_error _ _ _ Hp), (map_nth_error _ _ _ Hk). congruence.
+Qed.
+
+Lemma ids_same h ns0 ns : Forall2 (NodeInv h) ns0 ns -> map nd_index ns = map nd_index ns0.
+Proof. induction 1 as [|a b l0 l H HF IH]; cbn; [reflexivity|]. rewrite IH, (nr_idx _ _ _ _ _ _ H). reflexivity. Qed.
+
+Lemma find_idx_spec idx : forall ns p k nd, nth_error ns k = Some nd -> nd_index nd = idx ->
+  exists q nd', find_idx ns idx p = Some (p + q)%nat /\ nth_error ns q = Some nd' /\ nd_index nd' = idx.
+Proof.
+  induction ns as [|a ns IH]; intros p k nd Hk Hi; [destruct k; discriminate|]. cbn [find_idx].
+  destruct (nd_index a =? idx) eqn:E.
+  - apply Z.eqb_eq in E. exists O, a. rewrite Nat.add_0_r. auto.
+  - destruct k as [|k]; [cbn in Hk; injection Hk as ->; apply Z.eqb_neq in E; contradiction|].
+    destruct (IH (S p) k nd Hk Hi) as [q [nd' [H1 [H2 H3]]]]. exists (S q), nd'.
+    rewrite H1. split; [f_equal; lia | auto].
+Qed.
+
+(* _get_node finds the node that carries the id, wherever it stands in the list *)
+Lemma get_node_spec ns k nd : distinct_ids ns -> nth_error ns k = Some nd -> get_node ns (nd_index nd) = Some k.
+Proof.
+  intros Hnd Hk. unfold get_node.
+  assert (Hfind : find_idx ns (nd_index nd) O = Some k).
+  { destruct (find_idx_spec _ ns O k nd Hk eq_refl) as [q [nd' [H1 [H2 H3]]]]. rewrite H1. cbn. f_equal.
+    exact (ids_differ _ _ _ _ _ Hnd H2 Hk H3). }
+  destruct ((0 <=? nd_index nd) && (nd_index nd <? zlen ns)); [|exact Hfind].
+  destruct (nth_error ns (Z.to_nat (nd_index nd))) as [nd'|] eqn:E; [|exact Hfind].
+  destruct (nd_index nd' =? nd_index nd) eqn:E2; [|exact Hfind].
+  apply Z.eqb_eq in E2. f_equal. exact (ids_differ _ _ _ _ _ Hnd E Hk E2).
+Qed.
 
 Lemma Inv_functional ns0 a b h : Inv ns0 a h -> Inv ns0 b h -> a = b.
 Proof.
@@ -98,26 +132,25 @@ Lemma inv_take ns0 ns h k nd r nd' s :
   Inv ns0 (upd ns k nd') (h ++ [s]) /\
   exists n0, nth_error ns0 k = Some n0 /\ SlotFor r nd s /\ NodeInv h n0 nd.
 Proof.
-  intros [Hpos HF Hh] Hk Hr Hf.
+  intros [Hnd HF Hh] Hk Hr Hf.
   destruct (Forall2_nth_r _ _ _ _ _ HF Hk) as [n0 [Hk0 HN]].
   pose proof (find_slot_spec _ _ _ _ _ _ _ _ _ HN Hr Hf) as [HS HR]. cbn beta in HR.
-  pose proof (Hpos _ _ Hk0) as Hid.
   assert (Hsid : s_nidx s = nd_index n0) by (rewrite (sf_i _ _ _ HS); exact (nr_idx _ _ _ _ _ _ HN)).
   split; [| exists n0; auto].
-  constructor; [exact Hpos | |].
+  constructor; [exact Hnd | |].
   - eapply Forall2_upd_change; [exact HF | exact Hk0 | |].
     + unfold NodeInv. eapply NodeRel_ext; [| | | | exact HR]; intros;
         rewrite ?Hc_app, ?Hg_app, ?Hl_app, ?Hm_app; cbn [Hc Hg Hl Hm]; rewrite Hsid, Z.eqb_refl; lia.
-    + intros p x y Hp Hx Hy Hxy. pose proof (Hpos _ _ Hx) as Hidx.
+    + intros p x y Hp Hx Hy Hxy.
       assert (Hne : (s_nidx s =? nd_index x) = false).
-      { apply Z.eqb_neq. rewrite Hsid, Hid, Hidx. lia. }
+      { apply Z.eqb_neq. rewrite Hsid. intro E. apply Hp. symmetry in E. exact (ids_differ _ _ _ _ _ Hnd Hx Hk0 E). }
       unfold NodeInv in *. eapply NodeRel_ext; [| | | | exact Hxy]; intros;
         rewrite ?Hc_app, ?Hg_app, ?Hl_app, ?Hm_app; cbn [Hc Hg Hl Hm]; rewrite Hne; lia.
   - apply Forall_app. split; [exact Hh|]. constructor; [|constructor].
     destruct HS as [[Tc1 Tc2] [Tg1 Tg2] Sl Sm Si Sn].
-    unfold slot_on. rewrite Hsid, Hid. split; [lia|]. exists n0. rewrite Nat2Z.id.
+    unfold slot_on. exists k, n0.
     destruct Hr as [? [Hco [? [Hgo [Hlf Hme]]]]].
-    split; [exact Hk0|]. repeat split.
+    split; [exact Hk0|]. split; [symmetry; exact Hsid|]. repeat split.
     + unfold ro_fit. eapply Forall_impl; [|exact Tc1]. intros q [_ [Hq [o [Ho _]]]]. split; [exact Hq|].
       destruct (shifted_some _ _ _ _ _ (nr_c _ _ _ _ _ _ HN) Ho) as [o0 [Ho0 _]]. eauto.
     + unfold ro_fit. eapply Forall_impl; [|exact Tg1]. intros q [_ [Hq [o [Ho _]]]]. split; [exact Hq|].
@@ -128,35 +161,35 @@ Proof.
     + lia.
 Qed.
 
-(* giving back one held slot (any occurrence) through NodeList's look-up nodes[slot.node_index] *)
+(* giving back one held slot (any occurrence) through NodeList._get_node *)
 Lemma inv_give ns0 ns h1 s h2 :
   Inv ns0 ns (h1 ++ s :: h2) ->
-  exists k nd nd', py_pos ns (s_nidx s) = Some k /\ nth_error ns k = Some nd /\
+  exists k nd nd', get_node ns (s_nidx s) = Some k /\ nth_error ns k = Some nd /\
                    deallocate_slot nd s = (nd', None) /\ Inv ns0 (upd ns k nd') (h1 ++ h2).
 Proof.
-  intros [Hpos HF Hh].
+  intros [Hnd HF Hh].
   assert (Hs : slot_on ns0 s) by (rewrite Forall_forall in Hh; apply Hh; apply in_or_app; right; left; reflexivity).
   assert (Hh' : Forall (slot_on ns0) (h1 ++ h2)).
   { apply Forall_app in Hh as [A B]. apply Forall_app. split; [exact A | exact (Forall_inv_tail B)]. }
-  destruct Hs as [Hi [n0 [Hk0 [Fc [Fg [Nc [Ng [Nl Nm]]]]]]]].
-  set (k := Z.to_nat (s_nidx s)) in *.
+  destruct Hs as [k [n0 [Hk0 [Hid [Fc [Fg [Nc [Ng [Nl Nm]]]]]]]]].
   destruct (Forall2_nth_l _ _ _ _ _ HF Hk0) as [nd [Hk HN]].
-  pose proof (Hpos _ _ Hk0) as Hid. unfold k in Hid. rewrite Z2Nat.id in Hid by lia.
   destruct (H_nonneg _ _ Hh') as [P1 [P2 [P3 P4]]].
   destruct (deallocate_spec _ _ _ _ (Hc (h1 ++ h2) (nd_index n0)) (Hg (h1 ++ h2) (nd_index n0))
               (Hl (h1 ++ h2) (nd_index n0)) (Hm (h1 ++ h2) (nd_index n0)) n0 nd s HN Fc Fg Nc Ng Nl Nm)
     as [nd' [Hd HR']]; auto.
-  - intro j. rewrite Hc_mid. unfold cc. rewrite Hid, Z.eqb_refl. reflexivity.
-  - intro j. rewrite Hg_mid. unfold cg. rewrite Hid, Z.eqb_refl. reflexivity.
-  - rewrite Hl_mid. unfold cl. rewrite Hid, Z.eqb_refl. reflexivity.
-  - rewrite Hm_mid. unfold cm. rewrite Hid, Z.eqb_refl. reflexivity.
-  - exists k, nd, nd'. split; [exact (proj2 (get_pos_in ns (s_nidx s) nd Hi Hk))|].
+  - intro j. rewrite Hc_mid. unfold cc. rewrite <- Hid, Z.eqb_refl. reflexivity.
+  - intro j. rewrite Hg_mid. unfold cg. rewrite <- Hid, Z.eqb_refl. reflexivity.
+  - rewrite Hl_mid. unfold cl. rewrite <- Hid, Z.eqb_refl. reflexivity.
+  - rewrite Hm_mid. unfold cm. rewrite <- Hid, Z.eqb_refl. reflexivity.
+  - exists k, nd, nd'. split.
+    { rewrite <- Hid, <- (nr_idx _ _ _ _ _ _ HN). apply get_node_spec; [|exact Hk].
+      unfold distinct_ids. rewrite (ids_same _ _ _ HF). exact Hnd. }
     split; [exact Hk|]. split; [exact Hd|].
-    constructor; [exact Hpos | | exact Hh'].
+    constructor; [exact Hnd | | exact Hh'].
     eapply Forall2_upd_change; [exact HF | exact Hk0 | exact HR' |].
-    intros p x y Hp Hx Hy Hxy. pose proof (Hpos _ _ Hx) as Hidx.
+    intros p x y Hp Hx Hy Hxy.
     assert (Hne : (s_nidx s =? nd_index x) = false).
-    { apply Z.eqb_neq. rewrite Hidx. unfold k in Hp. intro E. apply Hp. rewrite E. rewrite Nat2Z.id. reflexivity. }
+    { apply Z.eqb_neq. rewrite <- Hid. intro E. apply Hp. symmetry in E. exact (ids_differ _ _ _ _ _ Hnd Hx Hk0 E). }
     unfold NodeInv in *. eapply NodeRel_ext; [| | | | exact Hxy]; intros;
       rewrite ?Hc_mid, ?Hg_mid, ?Hl_mid, ?Hm_mid; unfold cc, cg, cl, cm; rewrite Hne; lia.
 Qed.
